@@ -126,6 +126,20 @@ def run_case(ctx, n):
 VIAS = ["translate_name", "translate_mrna", "synthesize"]
 
 
+def render_on(rib, seq, page, bind, via):
+    """One rendering on an existing renderer ("page0" registered, `page` = the page's mRNA object)."""
+    try:
+        if via == "translate_name":
+            p = rib.translate("page0", **dict(bind))
+        elif via == "translate_mrna":
+            p = rib.translate(page, **dict(bind))
+        else:
+            p = rib.synthesize(seq, **dict(bind))
+        return ("ok", p.sequence, list(p.warnings))
+    except Exception as e:  # judged by the caller
+        return ("raise", e, None)
+
+
 def render_real(templates, bind, strict, via):
     R, mRNA = _classes()
     rib = R(filters=M.custom_filters(), strict=strict, silent=True)
@@ -133,17 +147,10 @@ def render_real(templates, bind, strict, via):
         if name != "__main__":
             rib.register_template(mRNA(sequence=M.unparse(nodes), name=name))
     seq = M.unparse(templates["__main__"])
-    try:
-        if via == "translate_name":
-            rib.register_template(mRNA(sequence=seq, name="page0"))
-            p = rib.translate("page0", **dict(bind))
-        elif via == "translate_mrna":
-            p = rib.translate(mRNA(sequence=seq, name="page0"), **dict(bind))
-        else:
-            p = rib.synthesize(seq, **dict(bind))
-        return rib, ("ok", p.sequence, list(p.warnings))
-    except Exception as e:  # judged by the caller
-        return rib, ("raise", e, None)
+    page = mRNA(sequence=seq, name="page0")
+    if via == "translate_name":
+        rib.register_template(page)
+    return rib, render_on(rib, seq, page, bind, via)
 
 
 def witness(templates, bind, strict, via, **extra):
@@ -154,10 +161,19 @@ def witness(templates, bind, strict, via, **extra):
 
 # ----------------------------------------------------------------------------- Part A oracle
 def judge(ctx, templates, bind, strict, via, prefix="", quiet=False):
-    """Compare one real rendering with the reference. Returns None if conforming, else a mechanism key.
+    """Compare one real rendering (fresh renderer) with the reference. Returns None if conforming, else a mechanism key.
     quiet=True only computes the verdict (used to localise a mismatch to one construct)."""
     rib, res = render_real(templates, bind, strict, via)
-    ref = M.Ref(templates, rib.filters, bind)
+    return assess(ctx, templates, rib.filters, res, bind, strict, via, prefix=prefix, quiet=quiet,
+                  tag=None if prefix else "parta")
+
+
+def assess(ctx, templates, filters, res, bind, strict, via, prefix="", quiet=False, tag=None, extra_witness=None,
+           stats_out=None):
+    """Judge one rendering result `res` of (templates, bind, strict) against the single-pass expansion.
+    `filters` = the (pure) filter callables the reference applies. `tag` selects the coverage counters
+    ("parta" keeps the historical names; other tags prefix them); `extra_witness()` is evaluated only on a violation."""
+    ref = M.Ref(templates, filters, bind)
     try:
         parts = ref.render("__main__")
     except M.FilterRaised as e:
@@ -166,13 +182,21 @@ def judge(ctx, templates, bind, strict, via, prefix="", quiet=False):
             if res[0] == "ok":
                 ctx.count("filter_raised_but_real_returned")
         return None
-    part_a = not prefix
-    if not quiet and part_a:     # coverage counters describe the Part A workload only
+    part_a = tag is not None
+
+    def cn(k):
+        return k if tag == "parta" else "%s:%s" % (tag, k)
+
+    if not quiet and part_a:     # coverage counters describe the generated workload only (not the Part B hosts)
         for k, v in ref.stats.items():
-            ctx.count(k, v)
+            ctx.count(cn(k), v)
+    if stats_out is not None:
+        stats_out.update(ref.stats)
 
     def fail(mech, what, **extra):
         if not quiet:
+            if extra_witness is not None:
+                extra.update(extra_witness())
             ctx.violation(prefix + mech, what, witness(templates, bind, strict, via, **extra))
         return prefix + mech
 
@@ -182,7 +206,7 @@ def judge(ctx, templates, bind, strict, via, prefix="", quiet=False):
             return fail("render-raises", "rendering raised %s in non-strict mode" % type(exc).__name__, error=repr(exc))
         if ref.missing:
             if not quiet and part_a:
-                ctx.count("strict_error_expected_and_raised")
+                ctx.count(cn("strict_error_expected_and_raised"))
             return None
         occ = M.plain_occurrences(templates)
         named = [v for v in occ if v not in bind and M.names_var([str(exc)], v)]
@@ -195,23 +219,23 @@ def judge(ctx, templates, bind, strict, via, prefix="", quiet=False):
                             "strict mode refused a template whose only 'missing' name %r is bound by its each-loop"
                             % bound_by_loop[0], error=repr(exc), expected=M.concrete(parts))
             if not quiet and part_a:
-                ctx.count("strict_error_for_dead_variable_tolerated")
+                ctx.count(cn("strict_error_for_dead_variable_tolerated"))
             return None
         return fail("strict-spurious-error", "strict mode raised %s although no variable is missing"
                     % type(exc).__name__, error=repr(exc), expected=M.concrete(parts))
     _, text, warnings = res
     if strict:
         if not quiet and part_a:
-            ctx.count("parta_strict_returned")
+            ctx.count(tag + "_strict_returned")
         if ref.missing:
             return fail("strict-missing-not-raised", "strict mode rendered although %r is missing" % ref.missing[0],
                         actual=text, warnings=warnings)
     if not quiet and part_a:
-        ctx.count("parta_text_compared")
+        ctx.count(tag + "_text_compared")
     if not M.matches(parts, text):
         mech = "render-mismatch"
-        if not quiet:
-            # localising costs extra renderings: do it for the first mismatches of a shard only
+        if not quiet and tag in (None, "parta"):
+            # localising costs extra renderings (on fresh renderers): do it for the first mismatches of a shard only
             seen = sum(v for k, v in ctx.violation_counts.items() if "render-mismatch" in k)
             mech += ":" + (localise(ctx, templates, bind, strict, via) if seen < 60 else "not-localised")
         return fail(mech, "rendered text differs from the single-pass expansion",
@@ -219,12 +243,12 @@ def judge(ctx, templates, bind, strict, via, prefix="", quiet=False):
     if not strict:
         for v in sorted(set(ref.missing)):
             if not quiet and part_a:
-                ctx.count("missing_var_warning_checked")
+                ctx.count(cn("missing_var_warning_checked"))
             if not M.names_var(warnings, v):
                 return fail("missing-var-no-warning", "missing variable %r rendered without a warning naming it" % v,
                             actual=text, warnings=warnings)
     if not quiet and part_a:
-        ctx.count("unknown_include_checked", len(ref.unknown))
+        ctx.count(cn("unknown_include_checked"), len(ref.unknown))
     return None
 
 
